@@ -354,6 +354,50 @@ for _p in ["C01", "C04", "C05", "C06", "C07", "C08", "C09", "C10", "C11", "C12",
         NOT_APPLICABLE[_p] = _PENDING
 
 
+# rules added after the first build: one sentence each, appended to the explanation / technique texts
+_ALSO = {
+    "C06": " Also: every entry point accepting `dagger` applies or forwards it; swap routines keep the caller's site order; an index "
+           "a gate routine leaves in the caller's network is named by rand_uuid() or a parameter, never a literal.",
+    "C07": " Also: sibling memoising methods key their caches on the same components; CircuitPermMPS records the permutation for "
+           "exactly the sites a swap moved; record clients follow self._psi.",
+    "C09": " Also: a two-part compress(form=...) sweep spans the whole chain; the fit driver's sweep memory (which licenses skipping the "
+           "environment rebuild) is a local, initialised to a constant and set after the sweep.",
+    "C10": " Also: the dense and LinearOperator forms of the local operator are built from the same index lists; the sweep memory that "
+           "licenses canonize=False never outlives, or lags behind, the sweep it remembers.",
+    "C11": " Also: memoised gates are keyed on every mutable attribute they depend on; default terms are spread only over bonds with "
+           "no term in either orientation; a term stored under the sorted pair is flipped when requested in the opposite order and "
+           "TEBD applies each gate on the pair it was requested for.",
+    "C12": " Also: norm stripped through a view is accrued on the returned network; every guard comparing a size with max_bond "
+           "compresses above / skips within the cap on the measured pair, and the gauge-only shortcut makes isometric the tensor "
+           "whose outer size the guard bounded, in each ordering of the two sizes.",
+    "C13": " Also (structural parts of site-ordering and cache reuse): a set of the requested sites is never consumed by an "
+           "order-carrying operation; values cached in a caller-supplied `info` dict are keyed on every semantic parameter they "
+           "depend on.",
+    "C14": " Also: sibling agreement on the transposition of the two messages of a bond when reduced factors are built; every value "
+           "route reads the (sign, exponent) accumulator.",
+    "C17": " Also: every index array that selects / reorders eigen- or singular values is an argsort of the values of the array it "
+           "permutes (through selector helpers), and arrays returned together are permuted together.",
+    "C19": " Also: dimensional analysis of the coefficient update in simplify_single_site_ops (A/a == B/b, A replaced by B => "
+           "coefficient times a/b); the Jordan-Wigner string covers [0, reg); dict-form sectors are ordered canonically; every write "
+           "of the builder's terms / transform flags reaches _reset_caches() on every path.",
+}
+_ALSO_TECH = {
+    "C06": "; literal-name escape rule",
+    "C07": "; sibling cache-key comparison",
+    "C09": "; span and sweep-memory (def-use + statement-order) rules",
+    "C10": "; dense/linop sibling comparison, sweep-memory rule",
+    "C11": "; memo-key def-use rule, orientation rules",
+    "C12": "; comparison-guard rule with finite case split over size orderings",
+    "C13": "; unordered-collection dataflow rule, memo-key def-use rule",
+    "C14": "; transposition-parity sibling rule",
+    "C17": "; argsort-provenance dataflow with helper following, companion-permutation rule",
+    "C19": "; monomial (dimensional) analysis, interval rule, {clean,dirty} path analysis of cache invalidation",
+}
+for _pid, _txt in _ALSO.items():
+    REGISTRY[_pid]["explanation"] = REGISTRY[_pid]["explanation"] + _txt
+for _pid, _txt in _ALSO_TECH.items():
+    TECHNIQUE[_pid] = TECHNIQUE[_pid] + _txt
+
 from .selftest import make_selftest  # noqa: E402
 
 for _pid, _spec in REGISTRY.items():
